@@ -3,7 +3,7 @@ from props import consumer_engine as E
 
 PROP = "C08"
 LEVEL = "exploration"
-RUNS = {"quick": 2500, "thorough": 100000}
+RUNS = {"quick": 8000, "thorough": 400000}
 SHRINK_LISTS = ("faults", "tasks", "ops", "appends", "descs")
 
 
